@@ -35,7 +35,11 @@ func (c *c09Case) deliveredOn(stream []byte) (items []string, errs int) {
 	res := demuxAll(stream)
 	for _, it := range res.items {
 		if it.PID == c.pid {
-			items = append(items, obs.Canon(it))
+			// the table alone: which packet a section was found in is not C09's subject (a section of a damaged
+			// multi-packet unit may legitimately be found again from a later packet of that unit)
+			cp := *it
+			cp.FirstPacket = nil
+			items = append(items, obs.Canon(&cp))
 		}
 	}
 	return items, len(res.errs)
